@@ -225,8 +225,6 @@ Qed.
 Lemma be16_le a b : a < 256 -> b < 256 -> be16 a b <= 65535.
 Proof. unfold be16. lia. Qed.
 
-Lemma slice_length l a n : (a + n <= length l)%nat -> length (slice l a n) = n.
-Proof. intros H. unfold slice. rewrite firstn_length, skipn_length. lia. Qed.
 
 Lemma parse_after_marker_wf hsz pat short sh idx d n m :
   wf_bytes d ->
